@@ -16,6 +16,7 @@ META = {
     'not_decided': ['the documented results of conversions as values (decimal spelling, number -> text -> number round trip)',
                     "the text print produces for a given format and arguments (only the single-pass structure of the substitution is decided)"],
 }
+META['explanation'] += ' R14.10 a list of arrays being printed is scoped: every entry is removed before the routine returns normally.'
 BUILTINS = {'print': 'call_print', 'type': 'call_type', 'bool': 'call_bool', 'int': 'call_int', 'float': 'call_float', 'string': 'call_string', 'lengte': 'call_length'}
 OWN = {'call_bool': 'Bool', 'call_int': 'Int', 'call_float': 'Float', 'call_string': 'String'}
 TYPE = 'object::Type'
